@@ -10,6 +10,8 @@ use trv_core::ilv::{self, OpFn, Spec};
 
 pub enum Budget {
     Token(TokenBucketBudget),
+    /// a token bucket made by the public builder (an `Arc<dyn RetryBudget>`)
+    Built(Arc<dyn RetryBudget>),
     Aimd(AimdBudget),
 }
 
@@ -17,12 +19,14 @@ impl Budget {
     fn b(&self) -> &dyn RetryBudget {
         match self {
             Budget::Token(t) => t,
+            Budget::Built(b) => b.as_ref(),
             Budget::Aimd(a) => a,
         }
     }
     fn observe(&self) -> String {
         match self {
             Budget::Token(t) => format!("balance={}", t.balance()),
+            Budget::Built(b) => format!("balance={}", b.balance()),
             Budget::Aimd(a) => format!("balance={} current_max={}", a.balance(), a.current_max()),
         }
     }
@@ -38,6 +42,9 @@ pub struct Cfg {
     pub min: usize,
     /// thread programs, e.g. ["W", "D"] or ["WD", "DW"]
     pub programs: Vec<&'static str>,
+    /// token bucket only: 0 = TokenBucketBudget::new, 1 = the public builder with max_tokens then
+    /// initial_tokens, 2 = the builder with initial_tokens then max_tokens
+    pub built: u8,
 }
 
 impl Cfg {
@@ -45,7 +52,7 @@ impl Cfg {
         if self.aimd {
             format!("aimd min={} max={} start={} deposit={} withdraw={} programs={:?}", self.min, self.max, self.initial, self.deposit, self.withdraw, self.programs)
         } else {
-            format!("token_bucket initial={} max={} programs={:?}", self.initial, self.max, self.programs)
+            format!("token_bucket initial={} max={} programs={:?}{}", self.initial, self.max, self.programs, match self.built { 1 => " built(max,initial)", 2 => " built(initial,max)", _ => "" })
         }
     }
     fn make(&self) -> Budget {
@@ -59,7 +66,11 @@ impl Cfg {
             }
             Budget::Aimd(b)
         } else {
-            Budget::Token(TokenBucketBudget::new(10.0, self.max, self.initial))
+            match self.built {
+                1 => Budget::Built(tower_resilience_retry::RetryBudgetBuilder::new().token_bucket().max_tokens(self.max).initial_tokens(self.initial).build()),
+                2 => Budget::Built(tower_resilience_retry::RetryBudgetBuilder::new().token_bucket().initial_tokens(self.initial).max_tokens(self.max).build()),
+                _ => Budget::Token(TokenBucketBudget::new(10.0, self.max, self.initial)),
+            }
         }
     }
     fn spec(&self, spurious: bool) -> Spec<Budget, i64> {
@@ -185,7 +196,15 @@ pub fn configs(tier: Tier) -> Vec<Cfg> {
     let tok: Vec<(usize, usize)> = tier.pick(vec![(1, 2), (2, 3), (1, 1)], vec![(1, 2), (2, 3), (1, 3), (2, 2), (0, 2), (1, 1), (3, 4)]);
     for (initial, max) in tok {
         for p in &programs {
-            v.push(Cfg { aimd: false, initial, max, deposit: 1, withdraw: 1, min: 0, programs: p.clone() });
+            v.push(Cfg { aimd: false, initial, max, deposit: 1, withdraw: 1, min: 0, programs: p.clone(), built: 0 });
+        }
+    }
+    // the same token buckets made by the public builder, setters in both orders
+    for (initial, max) in [(1usize, 2usize), (0, 2)] {
+        for built in [1u8, 2] {
+            for p in programs.iter().take(2) {
+                v.push(Cfg { aimd: false, initial, max, deposit: 1, withdraw: 1, min: 0, programs: p.clone(), built });
+            }
         }
     }
     // (min, max, start, deposit, withdraw); several start one deposit below the ceiling, so
@@ -198,7 +217,7 @@ pub fn configs(tier: Tier) -> Vec<Cfg> {
     );
     for (min, max, initial, deposit, withdraw) in aimd {
         for p in &programs {
-            v.push(Cfg { aimd: true, initial, max, deposit, withdraw, min, programs: p.clone() });
+            v.push(Cfg { aimd: true, initial, max, deposit, withdraw, min, programs: p.clone(), built: 0 });
         }
     }
     // debugging aid: VERIF_ONLY=<substring of a configuration label>
@@ -223,7 +242,9 @@ pub fn check_cfg(cfg: &Cfg, tier: Tier, rep: &mut Report) {
     if cfg.aimd && !seq.iter().all(|o| componentwise.contains(o)) {
         rep.machinery.push(format!("{}: the component-wise AIMD reference does not contain the sequential outcomes {:?} vs {:?}", cfg.label(), seq, componentwise));
     }
-    let start_balance = cfg.make().b().balance();
+    // what the budget was funded with: the configured initial tokens (the AIMD budget starts
+    // full and is drained to its start by make())
+    let start_balance = if cfg.aimd { cfg.make().b().balance() } else { cfg.initial.min(cfg.max) };
     let mut seen_outcomes: BTreeSet<String> = BTreeSet::new();
     let mut total = 0u64;
     let mut bound_done: Option<String> = None;
@@ -340,7 +361,7 @@ pub fn replay(path: &str) -> ! {
         if cfg.label() == label {
             let spec = cfg.spec(true);
             let seq = ilv::sequential_outcomes(&spec, |b| b.observe());
-            let start_balance = cfg.make().b().balance() as i64;
+            let start_balance = if cfg.aimd { cfg.make().b().balance() as i64 } else { cfg.initial.min(cfg.max) as i64 };
             let (a, sa) = ilv::run(&spec, &choices, true);
             let (b, _sb) = ilv::run(&spec, &choices, true);
             if a.trace != b.trace || a.returns != b.returns {
